@@ -10,7 +10,7 @@
    Base58 round trip of C09.
 
    Repaired behaviour assumed (FIXLOG): #3 (dispatch on length), #38 (split at the first '%'),
-   #39 (96-byte signatures read back as BLsig).  No proofs in this file. *)
+   #43 (96-byte signatures read back as BLsig).  No proofs in this file. *)
 From Coq Require Import String List NArith Bool Arith.
 From Coq.Strings Require Import Byte.
 From PV Require Import Base.Bytes Base.Result Codec.Base58.
